@@ -8,7 +8,7 @@ CLAIMED = {
     # id: (technique, level text, level note, design_ref, category)
     "C05": (
         "Hypothesis-generated fetch sequences vs list-and-index model",
-        "Generated result shapes (repeated/quoted names, NULLs) x fetch-call sequences on tuple and dict cursors compared "
+        "Generated result shapes (repeated/quoted names, NULLs; SELECT results and the status rows of DML, DDL and no-op statements run on the same cursor) x fetch-call sequences on tuple and dict cursors compared "
         "step by step with a list-and-index reference; exploration, not proof.",
         "Trusts DuckDB's ORDER BY and literal INSERT to produce the intended rows; values limited to int/str/float/bool/date.",
         "DESIGN.md §4 C05",
@@ -162,8 +162,9 @@ CLAIMED = {
         "Hypothesis-generated session scripts x engine-call schedules under a deterministic scheduler (DuckDB connection proxy) vs all serial orders; free-running threads with invariants",
         "Every fakesnow<->DuckDB call goes through a proxy that parks the calling thread until a deterministic scheduler grants the "
         "turn, so interleavings of the individual engine calls of 2-3 sessions are generated, shrunk and replayed; outcome vector + "
-        "final snapshot must equal one of all statement-level serial orders. A second facet runs real threads with invariants valid "
-        "for every timing. Exploration of bounded scripts/schedules.",
+        "final snapshot must equal one of all statement-level serial orders. A second facet runs real threads (in a forked child, so an "
+        "interpreter crash is a finding, not a harness error) with invariants valid for every timing; both facets also use instances "
+        "without database auto-creation and sessions opened without context. Exploration of bounded scripts/schedules.",
         "Engine calls are atomic scheduler steps; sessions blocked on a Python lock are detected by a grace period; races inside DuckDB are only sampled by the free-running facet.",
         "DESIGN.md §4 C19",
         "exploration",
@@ -173,7 +174,8 @@ CLAIMED = {
         "Generated statement histories run under patch(db_path) in a forked process; a proxy around the DuckDB connection counts engine "
         "calls and kills the process before/after the N-th one; clean and exception exits are included. A reference run gives the "
         "committed state after every statement and a fresh verifier process (reconnect options varied) must find exactly an allowed "
-        "state and must itself start. In-memory isolation and absence of files are checked in a forked process with an empty cwd.",
+        "state and must itself start; a reader that opens one database only must list every successfully created table and the recorded "
+        "comments / VARCHAR lengths (small model of the history). In-memory isolation and absence of files are checked in a forked process with an empty cwd.",
         "Crash points are engine-call boundaries; kills inside a single DuckDB call are not enumerated. Committed state = what a fresh engine cursor of the reference run sees.",
         "DESIGN.md §4 C18",
         "fault_enumeration",
